@@ -5,6 +5,7 @@ package px
 
 import (
 	"fmt"
+	"github.com/dcaiafa/lox/verif/internal/root"
 	"os"
 	"path/filepath"
 	"strings"
@@ -21,7 +22,7 @@ import (
 var NB = cnb.Carrier
 var B = cb.Carrier
 
-const CarrierDir = "/verif/work/carrier"
+var CarrierDir = root.Path("work", "carrier")
 
 type origParts struct {
 	base, lexer, parser *pipe.GenParts
